@@ -133,13 +133,24 @@ def h_oob(run, cfg):
     B = bt()
     dts = dates(2)
     data = frame(run, dts, ['a', 'b'], lambda i, c: {'a': [100.0, 105.0], 'b': [37.5, 33.0]}[c][i])
-    s = B.Strategy('s', [], ['a', 'b'])
-    s.use_integer_positions(False)
-    s.setup(data)
-    s.update(dts[0])
-    s.adjust(run.real('cap', 10 ** 5, 10 ** 6))
-    s.transact(run.real('pa', -1000, 1000), 'a')
-    s.transact(run.real('pb', -3000, 3000), 'b')
+    if cfg.get('nested'):
+        # a sub-strategy is a child like any other: its weight is held against its target too
+        kid = B.Strategy('kid', [], ['a'])
+        s = B.Strategy('s', [], [kid, 'b'])
+        s.use_integer_positions(False)
+        s.setup(data)
+        s.update(dts[0])
+        s.adjust(1000000.0)
+        s.allocate(run.real('xk', 0, 900000), 'kid')
+        s.transact(run.real('pb', -3000, 3000), 'b')
+    else:
+        s = B.Strategy('s', [], ['a', 'b'])
+        s.use_integer_positions(False)
+        s.setup(data)
+        s.update(dts[0])
+        s.adjust(run.real('cap', 10 ** 5, 10 ** 6))
+        s.transact(run.real('pa', -1000, 1000), 'a')
+        s.transact(run.real('pb', -3000, 3000), 'b')
     s.update(dts[0])
     if s.bankrupt:
         run.end('bankrupt')
@@ -248,6 +259,8 @@ def plan(tier):
         tasks.append(dict(harness='flow', cfg=dict(branches=k)))
     for targets in ([['a', 0.25], ['b', 0.5]], [['a', -0.25], ['b', 0.625]], [['a', 0.5], ['b', -0.125], ['zz', 0.25]], [['b', 0.375]]):
         tasks.append(dict(harness='oob', cfg=dict(targets=targets)))
+    for targets in ([['kid', 0.5], ['b', 0.25]], [['kid', 0.25]], [['kid', 0.625], ['b', -0.0625]]):
+        tasks.append(dict(harness='oob', cfg=dict(targets=targets, nested=1)))
     tasks.append(dict(harness='oob_cash', cfg={}))
     tasks.append(dict(harness='strategy_run', cfg={}))
     return tasks
